@@ -191,7 +191,13 @@ def _mutation_wrapper(
                 module.last_mutation = None
                 return
 
-            return method(*args, **kwargs)
+            # NOTE: A nested sub-module may have been re-created since this wrapper was bound (e.g. the
+            # encoder and head of a network after a latent-dimension mutation): call the live method
+            target = method
+            if "." in attribute:
+                target = module.get_mutation_methods().get(attribute, method)
+
+            return target(*args, **kwargs)
 
     return wrapped
 
